@@ -45,6 +45,17 @@ def run(report, db, tier):
 
 
 # ---------------------------------------------------------------------------
+    from .. import shared as _sh
+    Rd = report.rule('R19.9', 'tokens share no state: no mutable default '
+                     'argument value (a shared Profile, a shared dict) is '
+                     'kept or changed')
+    nd = _sh.shared_defaults(
+        report, Rd, db, [f for f in db.funcs
+                         if f.module.name == 'minecraft.authentication'],
+        'every token made with the default then holds the same object, and '
+        'authenticating one rewrites the profile of the others')
+    report.floor('default values in authentication.py', nd, 5)
+
 def predicate(report, db, F, tok, prof):
     R = report.rule('R19.1', '`authenticated` is the conjunction of '
                     'username, access token, client token and a complete '
